@@ -49,7 +49,8 @@ def run(tier):
     # the same lookup histories on the dylib backend: incarnations dlopen two different libraries
     # exporting the same names; addresses are compared with what the dynamic loader reports
     ddrv, dlibs = sx.dylib_driver()
-    dlines = [("reset %s 64 0" % l.split()[1]) if l.startswith("reset") else l for l in lines]
+    dcap = sx.capacity(ddrv, dlibs)
+    dlines = [("reset %s %d 0" % (l.split()[1], dcap)) if l.startswith("reset") else l for l in lines]
     devents, dtpath = sx.replay(ddrv, wd, "dylib", dlines, dlibs)
     for b in sx.validate(chk, "Trace_Sbx", dtpath, devents, dlines, "lookup-dylib"):
         chk.violation("[lookup, dylib backend] event %d outside the C11 Contract: %s" % (b["index"], b["event"]),
